@@ -65,7 +65,7 @@ pub fn run(ctx: &mut Ctx) {
         ("2G", g.double()),
         ("-G", -g),
     ];
-    let n_rand = if ctx.quick() { 3 } else { 10 };
+    let n_rand = if crate::small(ctx) { 3 * crate::extra(ctx) } else { 10 };
     for _ in 0..n_rand {
         ops.push(("random-full-group", Curve25519::random(&mut rng)));
         ops.push(("random-subgroup", Curve25519Subgroup::random(&mut rng).into()));
@@ -136,7 +136,7 @@ pub fn run(ctx: &mut Ctx) {
         }
     }
     let mut pairs: Vec<(Curve25519, Curve25519, &'static str)> = vec![];
-    let core: Vec<usize> = if ctx.quick() { (0..ops.len()).step_by(2).collect() } else { (0..ops.len()).collect() };
+    let core: Vec<usize> = if crate::small(ctx) { (0..ops.len()).step_by(2).collect() } else { (0..ops.len()).collect() };
     for &i in &core {
         for &j in &core {
             pairs.push((ops[i].1, ops[j].1, "grid"));
@@ -196,10 +196,10 @@ pub fn run(ctx: &mut Ctx) {
         scal.push((name, Scalar::from_bytes_mod_order(le32(&v))));
     }
     let mut srng = ctx.rng("ed-scalars");
-    for _ in 0..(if ctx.quick() { 2 } else { 8 }) {
+    for _ in 0..(if crate::small(ctx) { 2 } else { 8 }) {
         scal.push(("random", Scalar::random(&mut srng)));
     }
-    for (_, x) in ops.iter().step_by(if ctx.quick() { 2 } else { 1 }) {
+    for (_, x) in ops.iter().step_by(if crate::small(ctx) { 2 } else { 1 }) {
         let xw = pw(x);
         let xt = big::tok_pair(&xw);
         for (sname, s) in &scal {
@@ -214,7 +214,7 @@ pub fn run(ctx: &mut Ctx) {
             emit(ctx, &e, "mul", format!("ed mul:p*=&s {xt} {}", big::hex(&k)), &r, &spec);
         }
     }
-    for (i, len) in (if ctx.quick() { vec![0usize, 1, 2, 5] } else { vec![0, 1, 2, 3, 9, 20] }).iter().enumerate() {
+    for (i, len) in (if crate::small(ctx) { vec![0usize, 1, 2, 5] } else { vec![0, 1, 2, 3, 9, 20] }).iter().enumerate() {
         let mut r = ctx.rng(&format!("ed-sum-{i}"));
         let pts: Vec<Curve25519> = (0..*len).map(|_| ops[(r.next_u32() as usize) % ops.len()].1).collect();
         let toks: Vec<String> = pts.iter().map(|q| big::tok_pair(&pw(q))).collect();
@@ -265,9 +265,9 @@ pub fn run(ctx: &mut Ctx) {
         }
         dec(ctx, "valid", &b);
     }
-    for (_, x) in ops.iter().skip(1).take(if ctx.quick() { 2 } else { 6 }) {
+    for (_, x) in ops.iter().skip(1).take(if crate::small(ctx) { 2 } else { 6 }) {
         let src = x.to_bytes();
-        let bits: Vec<usize> = if ctx.quick() { vec![0, 1, 7, 8, 100, 248, 253, 254, 255] } else { (0..256).collect() };
+        let bits: Vec<usize> = if crate::small(ctx) { vec![0, 1, 7, 8, 100, 248, 253, 254, 255] } else { (0..256).collect() };
         for bit in bits {
             let mut c = src;
             c[bit / 8] ^= 1 << (bit % 8);
@@ -291,7 +291,7 @@ pub fn run(ctx: &mut Ctx) {
         dec(ctx, &format!("special:{name}"), &le32(&v));
     }
     let mut r = ctx.rng("ed-random-bytes");
-    for _ in 0..(if ctx.quick() { 60 } else { 2000 }) {
+    for _ in 0..(if crate::small(ctx) { 60 } else { 2000 }) {
         let mut b = [0u8; 32];
         r.fill_bytes(&mut b);
         dec(ctx, "random-bytes", &b);
